@@ -4,6 +4,8 @@ package main
 
 import (
 	"fmt"
+	"os"
+	"runtime/debug"
 	"go/constant"
 	"go/token"
 	"go/types"
@@ -70,6 +72,7 @@ type VC struct {
 	replayFn    *FuncInfo
 	replayLemma *Lemma
 	globalsDone map[types.Object]bool
+	stale       []string // loops whose invariants no longer evaluate (executed by bounded unrolling instead)
 	noSafety    bool // safety obligations (nil, idx, slice, div, panic, ovf, conv, ...) are assumed instead of proved
 	ndecl       int  // number of declared constants (to detect impure closure evaluation)
 	inlineDefs  bool // define() returns the term itself (closure-as-predicate evaluation)
@@ -161,6 +164,9 @@ func (s *State) fork(cond string) *State {
 func (s *State) assume(fact string) {
 	if fact == "true" {
 		return
+	}
+	if dbg := os.Getenv("GOVC_DEBUG_FACT"); dbg != "" && strings.Contains(fact, dbg) {
+		debug.PrintStack()
 	}
 	s.vc.facts = append(s.vc.facts, implies(s.g, fact))
 }
